@@ -40,8 +40,20 @@ func c13Strict(c *oracleCtx, src string) {
 
 // lineInitialCallOrIndex: some ( or [ token is the first token on a line
 func lineInitialCallOrIndex(src string) bool {
+	// decided on the text, not on the lexer's after-newline flag: the token is the first thing on its line
+	starts := lineOffsets(src)
 	for _, t := range lexAllB(src) {
-		if (t.Type == token.LPAREN || t.Type == token.LBRACKET) && t.AfterNewline {
+		if t.Type != token.LPAREN && t.Type != token.LBRACKET {
+			continue
+		}
+		if t.Start.Line < 0 || t.Start.Line >= len(starts) {
+			return true
+		}
+		off := starts[t.Start.Line] + t.Start.Column
+		if off > len(src) || off < starts[t.Start.Line] {
+			return true
+		}
+		if strings.Trim(src[starts[t.Start.Line]:off], " \t\r") == "" && t.Start.Line > 0 {
 			return true
 		}
 	}
@@ -210,7 +222,15 @@ func oracleC13(c *oracleCtx) {
 			c13Strict(c, in.src)
 			c13Smart(c, in.src)
 			c.count(in.line)
+		case "BUILD":
+			oaBuildHistory(c, "mode-after-build", in.line)
+			c.count(in.line)
 		case "rec":
+			if h := recStr(in.rec, "history"); h != "" {
+				oaBuildHistory(c, "mode-after-build", h)
+				c.count(in.line)
+				continue
+			}
 			switch recStr(in.rec, "kind") {
 			case "a":
 				c13Strict(c, in.src)
@@ -229,11 +249,15 @@ func oracleC13(c *oracleCtx) {
 	if c.tier == "replay" {
 		return
 	}
-	for _, s := range []string{"a = 1 b = 2", "a = 1\nb = 2", "let x = 1 let y = 2", "function f() { return 1 return 2 }", "a\n(b)", "a\n[b]", "a(b)\n(c)", "f(a\n(b))", "x = [1\n[0]]"} {
+	for _, s := range []string{"a = 1 b = 2", "a = 1\nb = 2", "let x = 1 let y = 2", "function f() { return 1 return 2 }", "a\n(b)", "a\n[b]", "a(b)\n(c)", "f(a\n(b))", "x = [1\n[0]]",
+		// a token that spans lines: what follows it on its last line is not at the start of a line
+		"let c = `ab\ncd`[1]", "x = `a\nb`(1)", "r = f(`a\nb`)[0]", "y = `a\r\nb`[0](2)", "z = \"a\\\nb\"[0]", "let c = `ab\ncd`\n[1]"} {
 		c13Strict(c, s)
 		c13Smart(c, s)
 		c.count(s)
 	}
+	// the modes are options of the builder: switched after a parser was built, they hold for the next parser
+	oaModeHistories(c, "mode-after-build", c.n(300, 6000))
 	c13Tolerant(c, "join", "a = 1;\nb = 2;\n", "a = 1 b = 2;\n", 5)
 	c13Tolerant(c, "truncate", "function f() {\na = 1;\n}\n", "function f() {\na = 1;\n", 22)
 	c13SmartLines(c, "a = 1\n(b)(c)\n[d].k\n", "a = 1\n;(b)(c)\n;[d].k\n")
